@@ -2,7 +2,7 @@
 from ..core import rng_for, rand_digits, M64, ndig, Cmd, U, I, W, PANIC, Problem, chk_big, Err, BV
 from ..oracles import words
 
-THOROUGH_SEEDS = 4   # the thorough tier repeats its staged workload over this many derived seeds
+THOROUGH_SEEDS = 3   # the thorough tier repeats its staged workload over this many derived seeds
 RULE = ('serialisation through a recording Serializer that accepts only seq / tuple / u32 / i8 and logs the announced length and '
         'every element: values 0, 1..40 u32 digits with the top native digit upper half zero / non-zero (bit lengths = 0, 1, 31, '
         '32, 33 mod 64), both signs; the token list must equal the model (little-endian base-2^32 digits, no trailing zero, '
